@@ -23,10 +23,16 @@ const (
 	oUnrouted
 	oCritExt
 	oNonCritExt
+	oDiscoverAll // built-in Discover Versions without a filter
+	oDiscoverSub // built-in Discover Versions asking for {1.2, 1.0, 9.9}
 	nOutcomes
 )
 
-var outcomeNames = []string{"ok", "typed-error", "plain-error", "panic", "unrouted-op", "critical-ext", "noncritical-ext"}
+var outcomeNames = []string{"ok", "typed-error", "plain-error", "panic", "unrouted-op", "critical-ext", "noncritical-ext", "discover-all", "discover-filtered"}
+
+var c09DefaultVersions = []kmip.ProtocolVersion{kmip.V1_4, kmip.V1_3, kmip.V1_2, kmip.V1_1, kmip.V1_0}
+var c09Filter = []kmip.ProtocolVersion{kmip.V1_2, kmip.V1_0, {ProtocolVersionMajor: 9, ProtocolVersionMinor: 9}}
+var c09Filtered = []kmip.ProtocolVersion{kmip.V1_2, kmip.V1_0}
 
 type c09case struct {
 	items   []int
@@ -45,13 +51,13 @@ func (k c09case) String() string {
 }
 
 func runC09(c *vlib.Check) {
-	maxLen := 4
+	maxLen, histLen := 4, 1
 	if c.Thorough() {
-		maxLen = 6
+		maxLen, histLen = 5, 2
 	}
 	c.Rule = fmt.Sprintf("explicit-state enumeration: every batch of length 0..%d x continuation option {unset, Continue, Stop, Undo} x per-item outcome {success, typed error, plain error, panic, "+
-		"unrouted operation, critical extension, non-critical extension} x {supported, unsupported} version x batch count {match, +1, -1} x {with, without} item IDs, each run on the real "+
-		"BatchExecutor.HandleRequest and compared field by field (and by handler call log) with a reference executor; states = distinct (batch, configuration) cases, transitions = handler calls + response items compared", maxLen)
+		"unrouted operation, critical extension, non-critical extension, built-in Discover Versions without / with a version filter} x {supported, unsupported} version x batch count {match, +1, -1} x {with, without} item IDs, each run on the real "+
+		"BatchExecutor.HandleRequest and compared field by field (and by handler call log) with a reference executor; history part: every ordered pair of such requests of length <= %d through one executor (the outcome of a request must not depend on the requests the executor processed before); states = distinct (batch, configuration) cases, transitions = handler calls + response items compared", maxLen, histLen)
 	c.Assumptions = []string{"when several rejection causes apply at once the property does not say which reason is reported: only 'single failed item, no handler executed' is required",
 		"'random longer batches' of the quantifier are not covered (sampling is another technique); the exhaustive length bound is stated in the rule"}
 	var cases []c09case
@@ -75,18 +81,45 @@ func runC09(c *vlib.Check) {
 	}
 	gen(nil)
 	vlib.Parallel(len(cases), 0, func(i int) { c09One(c, cases[i], i) })
-	c.States = int64(len(cases))
-	c.Traces = int64(len(cases))
+	// history part: every ordered pair of requests from the cases of length <= histLen, both through ONE executor; the
+	// second response (and the first) must satisfy the same reference as on a fresh executor
+	var hcases []c09case
+	for _, k := range cases {
+		if len(k.items) <= histLen {
+			hcases = append(hcases, k)
+		}
+	}
+	var pairs int64
+	vlib.Parallel(len(hcases), 0, func(i int) {
+		for j := range hcases {
+			x := newC09Exec()
+			c09Check(c, x, hcases[i], "")
+			c09Check(c, x, hcases[j], hcases[i].String())
+		}
+		c.Mu(func() {
+			c.Evaluations += int64(len(hcases))
+			c.DistinctN += int64(len(hcases))
+			pairs += int64(len(hcases))
+		})
+	})
+	c.Extra["history_pairs"] = pairs
+	c.States = int64(len(cases)) + pairs
+	c.Traces = int64(len(cases)) + 2*pairs
 	c.Exhaustive = true
 }
 
-func c09One(c *vlib.Check, k c09case, idx int) {
-	var calls []int // handler call log (item indexes)
-	exec := kmipserver.NewBatchExecutor()
-	exec.Route(kmip.OperationActivate, kmipserver.HandleFunc(func(ctx context.Context, req *payloads.ActivateRequestPayload) (*payloads.ActivateResponsePayload, error) {
+// c09Exec is one real executor with its handler call log.
+type c09Exec struct {
+	exec  *kmipserver.BatchExecutor
+	calls []int
+}
+
+func newC09Exec() *c09Exec {
+	x := &c09Exec{exec: kmipserver.NewBatchExecutor()}
+	x.exec.Route(kmip.OperationActivate, kmipserver.HandleFunc(func(ctx context.Context, req *payloads.ActivateRequestPayload) (*payloads.ActivateResponsePayload, error) {
 		var i, o int
 		fmt.Sscanf(req.UniqueIdentifier, "%d:%d", &i, &o)
-		calls = append(calls, i)
+		x.calls = append(x.calls, i)
 		switch o {
 		case oTyped:
 			return nil, kmipserver.Errorf(kmip.ResultReasonItemNotFound, "typed")
@@ -97,6 +130,22 @@ func c09One(c *vlib.Check, k c09case, idx int) {
 		}
 		return &payloads.ActivateResponsePayload{UniqueIdentifier: req.UniqueIdentifier}, nil
 	}))
+	return x
+}
+
+func c09One(c *vlib.Check, k c09case, idx int) {
+	c.Eval([]byte(k.String()), len(k.items) > 0)
+	if idx%5003 == 0 {
+		c.Sample(k.String())
+	}
+	c09Check(c, newC09Exec(), k, "")
+}
+
+// c09Check sends the request of case k through the executor x and compares the outcome with the reference; history
+// describes the requests x has already processed ("" for a fresh executor).
+func c09Check(c *vlib.Check, x *c09Exec, k c09case, history string) {
+	x.calls = nil
+	exec := x.exec
 	ver := kmip.V1_3
 	if k.badVer {
 		ver = kmip.ProtocolVersion{ProtocolVersionMajor: 3, ProtocolVersionMinor: 7}
@@ -108,6 +157,14 @@ func c09One(c *vlib.Check, k c09case, idx int) {
 			bi.Operation = kmip.OperationRevoke
 			bi.RequestPayload = &payloads.RevokeRequestPayload{UniqueIdentifier: "x"}
 		}
+		if o == oDiscoverAll || o == oDiscoverSub {
+			bi.Operation = kmip.OperationDiscoverVersions
+			pl := &payloads.DiscoverVersionsRequestPayload{}
+			if o == oDiscoverSub {
+				pl.ProtocolVersion = append([]kmip.ProtocolVersion{}, c09Filter...)
+			}
+			bi.RequestPayload = pl
+		}
 		if o == oCritExt || o == oNonCritExt {
 			bi.MessageExtension = &kmip.MessageExtension{VendorIdentification: "v", CriticalityIndicator: o == oCritExt}
 		}
@@ -116,17 +173,21 @@ func c09One(c *vlib.Check, k c09case, idx int) {
 		}
 		req.BatchItem = append(req.BatchItem, bi)
 	}
-	c.Eval([]byte(k.String()), len(k.items) > 0)
-	if idx%5003 == 0 {
-		c.Sample(k.String())
-	}
 	rep := map[string]any{"kind": "batch", "case": k.String()}
+	if history != "" {
+		rep["history"] = history
+	}
 	var resp *kmip.ResponseMessage
 	if pv, site := vlib.Catch(func() { resp = exec.HandleRequest(context.Background(), req) }); pv != nil {
 		c.Violation("panic:"+site, fmt.Sprintf("HandleRequest panicked: %v on %s", pv, k), rep)
 		return
 	}
+	calls := x.calls
 	fail := func(sig, format string, a ...any) {
+		if history != "" {
+			c.Violation("history:"+sig, fmt.Sprintf(format, a...)+" — "+k.String()+" — on an executor that had already processed: "+history, rep)
+			return
+		}
 		c.Violation(sig, fmt.Sprintf(format, a...)+" — "+k.String(), rep)
 	}
 	if resp == nil {
@@ -156,11 +217,11 @@ func c09One(c *vlib.Check, k c09case, idx int) {
 		if stopped {
 			continue
 		}
-		executed := o != oUnrouted && o != oCritExt
+		executed := o != oUnrouted && o != oCritExt && o != oDiscoverAll && o != oDiscoverSub
 		if executed {
 			wantCalls = append(wantCalls, i)
 		}
-		wantOK[i] = o == oOK || o == oNonCritExt
+		wantOK[i] = o == oOK || o == oNonCritExt || o == oDiscoverAll || o == oDiscoverSub
 		if !wantOK[i] && k.option == kmip.BatchErrorContinuationOptionStop {
 			stopped = true
 		}
@@ -184,7 +245,25 @@ func c09One(c *vlib.Check, k c09case, idx int) {
 		if gotOK != wantOK[i] {
 			fail("item-status", "item %d has status %v, reference expects success=%v", i, bi.ResultStatus, wantOK[i])
 		}
-		if gotOK {
+		if gotOK && (k.items[i] == oDiscoverAll || k.items[i] == oDiscoverSub) {
+			var got []kmip.ProtocolVersion
+			switch pl := bi.ResponsePayload.(type) {
+			case *payloads.DiscoverVersionsResponsePayload:
+				got = pl.ProtocolVersion
+			case *payloads.DiscoverVersionsRequestPayload: // the built-in handler answers with this type (same wire form)
+				got = pl.ProtocolVersion
+			default:
+				fail("item-payload", "item %d (discover versions) carries %T", i, bi.ResponsePayload)
+				continue
+			}
+			want := c09DefaultVersions
+			if k.items[i] == oDiscoverSub {
+				want = c09Filtered
+			}
+			if fmt.Sprint(got) != fmt.Sprint(want) {
+				fail("discover-versions-list", "item %d lists versions %v, the executor supports %v and the request asked for %v", i, got, c09DefaultVersions, req.BatchItem[i].RequestPayload.(*payloads.DiscoverVersionsRequestPayload).ProtocolVersion)
+			}
+		} else if gotOK {
 			pl, ok := bi.ResponsePayload.(*payloads.ActivateResponsePayload)
 			if !ok || pl.UniqueIdentifier != fmt.Sprintf("%d:%d", i, k.items[i]) {
 				fail("item-payload", "item %d carries the wrong payload", i)
